@@ -17,8 +17,13 @@ static void mixs(int64_t v) { hs ^= (uint64_t)v; hs *= 1099511628211ull; }
 // constant evaluation vs run time on boundary arguments (every call here must be accepted as a constant expression)
 #define CE1(f, a) { constexpr fixed_t c = f(as_fixed(a)); volatile int64_t va = a; fixed_t r = f(as_fixed(va)); if (c.v != r.v) { ++ce_fail; std::printf("CE-MISMATCH %s(%lld) %lld vs %lld\n", #f, (long long)(a), (long long)c.v, (long long)r.v); } mix(c.v); }
 #define CE2(expr_c, expr_r) { constexpr fixed_t c = expr_c; fixed_t r = expr_r; if (c.v != r.v) { ++ce_fail; std::printf("CE-MISMATCH %s\n", #expr_c); } mix(c.v); }
+#ifdef VF_HAVE_GEN
+#include "c08_gen.h"
+#else
+static int vf_gen_check() { return 0; }
+#endif
 int main() {
-  int ce_fail = 0;
+  int ce_fail = vf_gen_check();
   constexpr int64_t B[] = {0, 1, -1, 65535, 65536, -65536, 102943, 102944, 205887, -205886, 411774, 39322, 28672, 159744, 1ll << 30, (1ll << 30) - 1, 1ll << 34, 1ll << 46, (1ll << 47) - 1, -(1ll << 47), 0x7FFFFFFFFFFFFFFEll, -0x7FFFFFFFFFFFFFFEll, 0x7FFFFFFFFFFFFFFFll};
   CE1(sin, 0) CE1(sin, 102944) CE1(sin, -205886) CE1(sin, 0x7FFFFFFFFFFFFFFEll) CE1(cos, 65536) CE1(cos, (1ll << 46)) CE1(tan, 51472) CE1(tan, 102944) CE1(tan, -205886) CE1(tan, (1ll << 40) + 7)
   CE1(atan, 65536) CE1(atan, (1ll << 34)) CE1(atan, 60501272448540ll) CE1(atan, -28672) CE1(asin, 65536) CE1(asin, -39323) CE1(asin, 65537) CE1(acos, -65536) CE1(acos, 1)
